@@ -36,6 +36,7 @@ def query_everything(impl, model):
         try:
             for dirpath, dirs, files in iso.walk(**{key: '/'}):
                 list(iso.list_children(**{key: dirpath}))
+                iso.get_record(**{key: dirpath})
                 for f in files:
                     p = (dirpath if dirpath.endswith('/') else dirpath + '/') + f
                     rec = iso.get_record(**{key: p})
@@ -91,13 +92,18 @@ def record_view(iso, model):
     """(namespace, path) -> (extent, length) through record queries."""
     out = {}
     views = [('iso_path', model.iso)]
+    if model.rr and not model.relocation_possible():
+        rrt = {}
+        for p0, n0 in model.iso.items():
+            rrt[model.rr_path_of(p0)] = n0
+        views.append(('rr_path', rrt))
     if model.jol is not None:
         views.append(('joliet_path', model.jol))
     if model.udf is not None:
         views.append(('udf_path', model.udf))
     for key, tree in views:
         for p, n in tree.items():
-            if p == '/' and key != 'udf_path':
+            if p == '/' and key not in ('udf_path', 'rr_path'):
                 rec = iso.get_record(**{key: p})
                 out[(key, p)] = (rec.extent_location(), rec.get_data_length())
                 continue
@@ -132,7 +138,7 @@ def check_schedules(cfg, steps, k, res=None, only=None):
     except Exception as e:
         return None     # base history not accepted / not writable: C01's business
     cases = []
-    if only == 'FCQ':
+    if isinstance(only, str):
         cases = []
     elif only is not None:
         cases = [only]
@@ -158,11 +164,17 @@ def check_schedules(cfg, steps, k, res=None, only=None):
             j = master.first_diff(img, base)
             viols.append(({'clause': 'final image independent of schedule', 'cls': master.region_name(base, j) if len(img) == len(base) else 'len',
                            'msg': 'devs=%s ac=%s: %s' % (devs, ac, master.describe_diff(base, img))}, case))
-    # second clause
-    if only is None or only == 'FCQ':
-        case = {'cfg': cfg, 'steps': steps, 'devs': 'FCQ', 'ac': False}
+    # second clause: with no earlier query, and with one query (which fills the lookup caches) at each gap
+    fcq = []
+    if only is None:
+        fcq = ['FCQ'] + ['FCQ@%d' % g for g in range(1, len(steps))]
+    elif isinstance(only, str) and only.startswith('FCQ'):
+        fcq = [only]
+    for tag in fcq:
+        case = {'cfg': cfg, 'steps': steps, 'devs': tag, 'ac': False}
+        qdev = [(int(tag[4:]), 'Q')] if '@' in tag else []
         try:
-            impl, m2 = run_schedule(cfg, steps, [], False, trailing_fc=True)
+            impl, m2 = run_schedule(cfg, steps, qdev, False, trailing_fc=True)
             live = record_view(impl.iso, m2)
             img = impl.write()
             after = record_view(env.open_image(img), m2)
@@ -226,8 +238,10 @@ def run_task(task):
 
 def check_case(case):
     devs = case['devs']
-    if devs == 'FCQ':
-        vs = check_schedules(case['cfg'], case['steps'], 0, only='FCQ')
+    if isinstance(devs, str):
+        if '@' in devs and int(devs[4:]) >= len(case['steps']):
+            return []
+        vs = check_schedules(case['cfg'], case['steps'], 0, only=devs)
     else:
         vs = check_schedules(case['cfg'], case['steps'], 0, only=([tuple(d) for d in devs], case['ac']))
     return [v for v, c in (vs or [])]
@@ -243,11 +257,14 @@ def shrink(case):
             if c['steps'] == case['steps'][:i] + case['steps'][i + 1:]:
                 removed = i
                 break
-        if devs != 'FCQ' and removed is not None:
+        if isinstance(devs, str) and '@' in devs and removed is not None and removed < int(devs[4:]):
+            c = dict(c)
+            c['devs'] = 'FCQ@%d' % (int(devs[4:]) - 1)
+        if not isinstance(devs, str) and removed is not None:
             c = dict(c)
             c['devs'] = [[g - 1 if g > removed else g, k] for g, k in devs]
         yield c
-    if devs != 'FCQ' and len(devs) > 1:
+    if not isinstance(devs, str) and len(devs) > 1:
         for i in range(len(devs)):
             c = dict(case)
             c['devs'] = devs[:i] + devs[i + 1:]
